@@ -94,3 +94,355 @@ Proof.
   intros H. unfold hex8, hex4. cbn [app]. rewrite expand_U by apply ishex_hd.
   rewrite !hv4_hex4 by (apply N.mod_lt; discriminate). f_equal. lia.
 Qed.
+
+(* ---- repr_char followed by expand ------------------------------------------------------------ *)
+
+Definition okc (pr : N -> bool) (u : bool) (c : N) : Prop :=
+  65536 <= c -> pr c = true \/ (u = true /\ c < 4294967296).
+
+Lemma expand_repr_char pr u q c r : (q = 39 \/ q = 34) -> okc pr u c ->
+  expand u (repr_char pr q c ++ r) = c :: expand u r.
+Proof.
+  intros Hq Hok. unfold repr_char, cBS.
+  destruct (N.eqb_spec c q) as [Ecq | Ncq]; cbn [orb].
+  { cbn [app]. apply expand_simple. subst c. destruct Hq; subst q; reflexivity. }
+  destruct (N.eqb_spec c 92) as [E | N92].
+  { subst c. cbn [app]. apply expand_simple. reflexivity. }
+  destruct (N.eqb_spec c 9) as [E | N9]. { subst c. apply expand_simple. reflexivity. }
+  destruct (N.eqb_spec c 10) as [E | N10]. { subst c. apply expand_simple. reflexivity. }
+  destruct (N.eqb_spec c 13) as [E | N13]. { subst c. apply expand_simple. reflexivity. }
+  destruct (N.ltb_spec c 32) as [L32 | G32]; cbn [orb].
+  { cbn [app]. apply expand_hex2. lia. }
+  destruct (N.eqb_spec c 127) as [E | N127]. { cbn [app]. apply expand_hex2. lia. }
+  destruct (N.ltb_spec c 127) as [L127 | G127]. { cbn [app]. apply expand_raw. assumption. }
+  destruct (pr c) eqn:Epr. { cbn [app]. apply expand_raw. assumption. }
+  destruct (N.leb_spec c 255). { cbn [app]. apply expand_hex2. lia. }
+  destruct (N.leb_spec c 65535). { cbn [app]. apply expand_hex4. lia. }
+  destruct Hok as [Hp | [Hu Hc]]; [lia | congruence |].
+  subst u. cbn [app]. apply expand_hex8. assumption.
+Qed.
+
+Lemma expand_repr_body pr u q s : (q = 39 \/ q = 34) -> Forall (okc pr u) s ->
+  expand u (flat_map (repr_char pr q) s) = s.
+Proof.
+  intros Hq H. induction H as [| c s Hc Hs IH]; [reflexivity |].
+  cbn [flat_map]. rewrite expand_repr_char by assumption. rewrite IH. reflexivity.
+Qed.
+
+(* ---- the unescaped-quote test ---------------------------------------------------------------- *)
+
+Lemma strip_pairs_pair d r : d <> 10 -> strip_pairs (92 :: d :: r) = strip_pairs r.
+Proof. intros H. cbn [strip_pairs]. change (92 =? cBS) with true. cbv iota.
+  destruct (N.eqb_spec d 10); [contradiction | reflexivity]. Qed.
+
+Lemma strip_pairs_raw l r : Forall (fun x => x <> 92) l -> strip_pairs (l ++ r) = l ++ strip_pairs r.
+Proof.
+  induction 1 as [| x l Hx Hl IH]; [reflexivity |].
+  cbn [app strip_pairs]. unfold cBS. destruct (N.eqb_spec x 92); [contradiction |]. rewrite IH. reflexivity.
+Qed.
+
+Definition clean (q : N) (l : str) : Prop := Forall (fun x => x <> 92 /\ x <> q) l.
+
+Lemma clean_hd q x : (q = 39 \/ q = 34) -> hexdigit (x mod 16) <> 92 /\ hexdigit (x mod 16) <> q.
+Proof.
+  intros Hq. destruct (hexdigit_ok (x mod 16)) as (_ & _ & A & B & C & _); [apply N.mod_lt; discriminate|].
+  split; [assumption |]. destruct Hq; subst q; assumption.
+Qed.
+
+Lemma clean_hex2 q c : (q = 39 \/ q = 34) -> clean q (hex2 c).
+Proof. intros. unfold hex2. repeat constructor; apply clean_hd; assumption. Qed.
+Lemma clean_hex4 q c : (q = 39 \/ q = 34) -> clean q (hex4 c).
+Proof. intros. unfold hex4. repeat constructor; apply clean_hd; assumption. Qed.
+Lemma clean_hex8 q c : (q = 39 \/ q = 34) -> clean q (hex8 c).
+Proof. intros. unfold hex8. apply Forall_app. split; apply clean_hex4; assumption. Qed.
+
+Lemma clean_raw q l r : clean q l -> strip_pairs (l ++ r) = l ++ strip_pairs r.
+Proof. intros H. apply strip_pairs_raw. eapply Forall_impl; [| exact H]. cbv beta. tauto. Qed.
+
+Lemma strip_repr_char pr q c r : (q = 39 \/ q = 34) ->
+  exists pre, clean q pre /\ strip_pairs (repr_char pr q c ++ r) = pre ++ strip_pairs r.
+Proof.
+  intros Hq. unfold repr_char, cBS.
+  assert (ESC : forall d, d <> 10 -> exists pre, clean q pre /\ strip_pairs ([92; d] ++ r) = pre ++ strip_pairs r).
+  { intros d Hd. exists []. split; [constructor |]. cbn [app]. apply strip_pairs_pair. assumption. }
+  assert (HEX : forall d l, d <> 10 -> clean q l ->
+                exists pre, clean q pre /\ strip_pairs ((92 :: d :: l) ++ r) = pre ++ strip_pairs r).
+  { intros d l Hd Hl. exists l. split; [assumption |]. cbn [app]. rewrite strip_pairs_pair by assumption.
+    apply clean_raw. assumption. }
+  assert (RAW : c <> 92 -> c <> q -> exists pre, clean q pre /\ strip_pairs ([c] ++ r) = pre ++ strip_pairs r).
+  { intros A B. exists [c]. split; [repeat constructor; assumption |]. apply clean_raw. repeat constructor; assumption. }
+  destruct (N.eqb_spec c q) as [Ecq | Ncq]; cbn [orb].
+  { apply ESC. destruct Hq; subst; discriminate. }
+  destruct (N.eqb_spec c 92) as [E | N92]. { apply ESC. subst; discriminate. }
+  destruct (N.eqb_spec c 9). { apply ESC. discriminate. }
+  destruct (N.eqb_spec c 10). { apply ESC. discriminate. }
+  destruct (N.eqb_spec c 13). { apply ESC. discriminate. }
+  destruct (N.ltb_spec c 32); cbn [orb]. { apply HEX; [discriminate | apply clean_hex2; assumption]. }
+  destruct (N.eqb_spec c 127). { apply HEX; [discriminate | apply clean_hex2; assumption]. }
+  destruct (N.ltb_spec c 127). { apply RAW; assumption. }
+  destruct (pr c). { apply RAW; assumption. }
+  destruct (N.leb_spec c 255). { apply HEX; [discriminate | apply clean_hex2; assumption]. }
+  destruct (N.leb_spec c 65535). { apply HEX; [discriminate | apply clean_hex4; assumption]. }
+  apply HEX; [discriminate | apply clean_hex8; assumption].
+Qed.
+
+Lemma memN_app c a b : memN c (a ++ b) = memN c a || memN c b.
+Proof. unfold memN. apply existsb_app. Qed.
+
+Lemma memN_clean q l : clean q l -> memN q l = false.
+Proof.
+  induction 1 as [| x l [_ Hx] Hl IH]; [reflexivity |].
+  unfold memN in *. cbn [existsb]. rewrite IH. destruct (N.eqb_spec q x); [congruence | reflexivity].
+Qed.
+
+Lemma no_quote_body pr q s : (q = 39 \/ q = 34) ->
+  memN q (strip_pairs (flat_map (repr_char pr q) s)) = false.
+Proof.
+  intros Hq. induction s as [| c s IH]; [reflexivity |].
+  cbn [flat_map]. destruct (strip_repr_char pr q c (flat_map (repr_char pr q) s) Hq) as (pre & Hc & ->).
+  rewrite memN_app, IH, memN_clean by assumption. reflexivity.
+Qed.
+
+Lemma choose_quote_cases s : choose_quote s = 39 \/ choose_quote s = 34.
+Proof. unfold choose_quote. destruct (_ && _); [right | left]; reflexivity. Qed.
+
+Lemma last_is_snoc l q : last_is (l ++ [q]) q = true.
+Proof.
+  unfold last_is. rewrite last_last. rewrite N.eqb_refl. destruct l; reflexivity.
+Qed.
+
+Section Str.
+  Variable F : Type.
+  Variable fp : str -> option F.
+  Variable pr : N -> bool.
+
+  Lemma roundtrip_str_gen u s : Forall (okc pr u) s -> parse_attr F fp u (repr_str pr s) = PStr s.
+  Proof.
+    intros H. unfold parse_attr, repr_str.
+    pose proof (choose_quote_cases s) as Hq. set (q := choose_quote s) in *.
+    assert (Hm : memN cSQ (q :: flat_map (repr_char pr q) s ++ [q])
+                 || memN cDQ (q :: flat_map (repr_char pr q) s ++ [q]) = true).
+    { unfold memN, cSQ, cDQ. cbn [existsb]. destruct Hq as [-> | ->]; reflexivity. }
+    rewrite Hm.
+    assert (Hqq : negb ((q =? cSQ) || (q =? cDQ)) = false) by (destruct Hq as [-> | ->]; reflexivity).
+    rewrite Hqq. rewrite last_is_snoc. cbn [negb]. rewrite removelast_last.
+    rewrite no_quote_body by assumption. rewrite expand_repr_body by assumption. reflexivity.
+  Qed.
+End Str.
+
+(* ---- integers -------------------------------------------------------------------------------- *)
+
+Lemma digits_val_snoc l c : digits_val (l ++ [c]) = digits_val l * 10 + (c - 48).
+Proof. unfold digits_val. rewrite fold_left_app. reflexivity. Qed.
+
+Lemma isdigit_add d : d < 10 -> isdigit (48 + d) = true.
+Proof. unfold isdigit. lia. Qed.
+
+Lemma dec_fuel_ok f : forall n, n < 2 ^ N.of_nat f ->
+  digits_val (dec_fuel f n) = n /\ Forall (fun c => isdigit c = true) (dec_fuel f n) /\ dec_fuel f n <> [].
+Proof.
+  induction f as [| f IH]; intros n H.
+  - change (2 ^ N.of_nat 0) with 1 in H. assert (n = 0) by lia. subst n. vm_compute.
+    repeat split; [repeat constructor | discriminate].
+  - cbn [dec_fuel]. destruct (N.ltb_spec n 10) as [L | G].
+    + repeat split; [unfold digits_val; cbn [fold_left]; lia | repeat constructor; apply isdigit_add; assumption | discriminate].
+    + rewrite Nat2N.inj_succ, N.pow_succ_r' in H.
+      destruct (IH (n / 10)) as (A & B & C); [lia |].
+      repeat split.
+      * rewrite digits_val_snoc, A. lia.
+      * apply Forall_app. split; [assumption | repeat constructor; apply isdigit_add; lia].
+      * destruct (dec_fuel f (n / 10)); discriminate.
+Qed.
+
+Lemma pos_lt_pow2 p : N.pos p < 2 ^ N.of_nat (Pos.size_nat p).
+Proof.
+  induction p as [p IH | p IH |]; cbn [Pos.size_nat]; try rewrite Nat2N.inj_succ, N.pow_succ_r'; try lia.
+  reflexivity.
+Qed.
+
+Lemma dec_ok n : digits_val (dec n) = n /\ Forall (fun c => isdigit c = true) (dec n) /\ dec n <> [].
+Proof.
+  unfold dec. apply dec_fuel_ok. destruct n as [| p]; [reflexivity | apply pos_lt_pow2].
+Qed.
+
+Lemma all_digits_nl_digits l : Forall (fun c => isdigit c = true) l -> all_digits_nl l = true.
+Proof.
+  induction 1 as [| c l Hc Hl IH]; [reflexivity |].
+  cbn [all_digits_nl]. destruct l as [| c' l']; [rewrite Hc; reflexivity | rewrite Hc, IH; reflexivity].
+Qed.
+
+Definition numch (c : N) : Prop := c = 45 \/ isdigit c = true.
+
+Lemma memN_numch q l : (q = 39 \/ q = 34) -> Forall numch l -> memN q l = false.
+Proof.
+  intros Hq. induction 1 as [| c l Hc Hl IH]; [reflexivity |].
+  unfold memN in *. cbn [existsb]. rewrite IH.
+  destruct (N.eqb_spec q c) as [E | NE]; [| reflexivity].
+  exfalso. subst c. destruct Hc as [Hc | Hc]; destruct Hq; subst q; try discriminate.
+Qed.
+
+Lemma drop_nl_id l : Forall numch l -> drop_nl l = l.
+Proof.
+  intros H. unfold drop_nl. destruct (rev l) as [| c r] eqn:E; [reflexivity |].
+  assert (Hin : In c l) by (apply in_rev; rewrite E; left; reflexivity).
+  rewrite Forall_forall in H. specialize (H c Hin).
+  destruct (N.eqb_spec c 10) as [E10 | _]; [| reflexivity].
+  subst c. destruct H as [H | H]; discriminate.
+Qed.
+
+Lemma repr_int_numch z : Forall numch (repr_int z).
+Proof.
+  unfold repr_int. apply Forall_app. split.
+  - destruct (Z.ltb z 0); repeat constructor.
+  - destruct (dec_ok (Z.abs_N z)) as (_ & B & _). eapply Forall_impl; [| exact B]. intros c Hc. right. exact Hc.
+Qed.
+
+Section IntFloat.
+  Variable F : Type.
+  Variable fp : str -> option F.
+  Variable u : bool.
+
+  Lemma roundtrip_int z : parse_attr F fp u (repr_int z) = PInt z.
+  Proof.
+    pose proof (repr_int_numch z) as Hn.
+    unfold parse_attr.
+    rewrite (memN_numch 39), (memN_numch 34) by (auto using repr_int_numch).
+    cbn [orb]. destruct (dec_ok (Z.abs_N z)) as (A & B & C).
+    assert (HS : int_shape (repr_int z) = true /\ parse_int (repr_int z) = Some z).
+    { unfold parse_int. rewrite drop_nl_id by assumption. unfold repr_int in *.
+      destruct (Z.ltb_spec z 0) as [L | G]; cbn [app].
+      - split.
+        + cbn [int_shape]. change ((45 =? 43) || (45 =? 45)) with true. cbv iota.
+          apply all_digits_nl_digits. assumption.
+        + change (45 =? 45) with true. cbv iota.
+          destruct (dec (Z.abs_N z)) eqn:E; [congruence |]. rewrite <- E, A. f_equal. lia.
+      - destruct (dec (Z.abs_N z)) as [| c r] eqn:E; [congruence |].
+        assert (Hc : isdigit c = true) by (inversion B; assumption).
+        assert (N1 : (c =? 43) = false) by (unfold isdigit in Hc; lia).
+        assert (N2 : (c =? 45) = false) by (unfold isdigit in Hc; lia).
+        split.
+        + cbn [int_shape]. rewrite N1, N2. cbn [orb]. apply all_digits_nl_digits. assumption.
+        + rewrite N1, N2. rewrite A. f_equal. lia. }
+    destruct HS as [-> ->]. reflexivity.
+  Qed.
+
+  Lemma roundtrip_float (float_repr : F -> str) f :
+    float_text_ok (float_repr f) = true -> fp (float_repr f) = Some f ->
+    parse_attr F fp u (float_repr f) = PFloat f.
+  Proof.
+    intros Hok Hp. unfold float_text_ok in Hok. unfold parse_attr.
+    destruct (memN cSQ (float_repr f) || memN cDQ (float_repr f)); [discriminate |].
+    destruct (int_shape (float_repr f)); [discriminate |].
+    destruct (str_eqb (float_repr f) sTrue); [discriminate |].
+    destruct (str_eqb (float_repr f) sFalse); [discriminate |].
+    rewrite Hp. reflexivity.
+  Qed.
+End IntFloat.
+
+(* the code as it is (accU = false) does not undo the \U escape *)
+Lemma roundtrip_refuted (F : Type) (fp : str -> option F) (pr : N -> bool) :
+  pr 917505 = false ->
+  parse_attr F fp false (repr_str pr [917505]) = PStr [92; 85; 48; 48; 48; 101; 48; 48; 48; 49]
+  /\ parse_attr F fp false (repr_str pr [917505]) <> PStr [917505].
+Proof.
+  intros H.
+  assert (E : repr_str pr [917505] = [39; 92; 85; 48; 48; 48; 101; 48; 48; 48; 49; 39]).
+  { unfold repr_str, choose_quote. change (memN cSQ [917505] && negb (memN cDQ [917505])) with false.
+    cbv iota. cbn [flat_map app]. unfold repr_char. rewrite H. vm_compute. reflexivity. }
+  rewrite E. split; [vm_compute; reflexivity | vm_compute; discriminate].
+Qed.
+
+(* ---- header lines ---------------------------------------------------------------------------- *)
+
+Lemma lstrip_id c r : is_space c = false -> lstrip (c :: r) = c :: r.
+Proof. intros H. cbn [lstrip]. rewrite H. reflexivity. Qed.
+
+Lemma strip_id c m e : is_space c = false -> is_space e = false -> strip ((c :: m) ++ [e]) = (c :: m) ++ [e].
+Proof.
+  intros Hc He. unfold strip. cbn [app]. rewrite lstrip_id by assumption.
+  change (c :: m ++ [e]) with ((c :: m) ++ [e]). rewrite rev_app_distr. cbn [rev app].
+  rewrite lstrip_id by assumption.
+  change (e :: rev m ++ [c]) with ([e] ++ rev (c :: m)). rewrite rev_app_distr, rev_involutive. reflexivity.
+Qed.
+
+Lemma strip_id1 c : is_space c = false -> strip [c] = [c].
+Proof. intros H. unfold strip. cbn [lstrip rev app]. rewrite H. cbn [rev app lstrip]. rewrite H. reflexivity. Qed.
+
+(* a text that starts and ends with a non-space character *)
+Definition tight (v : str) : Prop :=
+  exists c m, is_space c = false /\ ((v = [c]) \/ exists e, is_space e = false /\ v = (c :: m) ++ [e]).
+
+Lemma strip_tight v : tight v -> strip v = v.
+Proof.
+  intros (c & m & Hc & [-> | (e & He & ->)]); [apply strip_id1 | apply strip_id]; assumption.
+Qed.
+
+Lemma strip_sp_tight v : tight v -> strip (32 :: v) = v.
+Proof.
+  intros H. pose proof (strip_tight v H) as E. unfold strip in *. cbn [lstrip]. change (is_space 32) with true.
+  cbv iota. exact E.
+Qed.
+
+Lemma split_colon_app name r : memN 58 name = false ->
+  split_colon (name ++ 58 :: r) = Some (name, r).
+Proof.
+  induction name as [| c name IH]; intros H.
+  - reflexivity.
+  - unfold memN in H. cbn [existsb] in H. apply orb_false_iff in H as [H1 H2].
+    cbn [app split_colon]. rewrite N.eqb_sym, H1. rewrite IH by exact H2. reflexivity.
+Qed.
+
+Lemma tight_snoc v e : tight v -> is_space e = false -> tight (v ++ [e]).
+Proof.
+  intros (c & m & Hc & [-> | (e' & He' & ->)]) He.
+  - exists c, []. split; [assumption |]. right. exists e. split; [assumption | reflexivity].
+  - exists c, (m ++ [e']). split; [assumption |]. right. exists e. split; [assumption |].
+    cbn [app]. rewrite <- app_assoc. reflexivity.
+Qed.
+
+Lemma header_roundtrip name v :
+  name <> [] -> memN 58 name = false -> tight v ->
+  parse_line (header_line name v) = Some (name, v).
+Proof.
+  intros Hn Hc Hv. unfold parse_line, header_line.
+  assert (T : tight ([35; 32] ++ name ++ [58; 32] ++ v)).
+  { destruct Hv as (c & m & Hcs & [-> | (e & He & ->)]).
+    - exists 35, (32 :: name ++ [58; 32]). split; [reflexivity |]. right. exists c. split; [assumption |].
+      cbn [app]. rewrite <- app_assoc. reflexivity.
+    - exists 35, (32 :: name ++ [58; 32] ++ c :: m). split; [reflexivity |]. right. exists e. split; [assumption |].
+      cbn [app]. f_equal. f_equal. rewrite <- !app_assoc. reflexivity. }
+  rewrite strip_tight by exact T.
+  change ([35; 32] ++ name ++ [58; 32] ++ v) with (35 :: 32 :: (name ++ 58 :: 32 :: v)).
+  cbn [split_colon]. change (35 =? 58) with false. change (32 =? 58) with false. cbv iota.
+  rewrite split_colon_app by assumption.
+  destruct name as [| n0 name']; [contradiction |].
+  rewrite strip_sp_tight by assumption. reflexivity.
+Qed.
+
+Lemma tight_repr_str pr s : tight (repr_str pr s).
+Proof.
+  unfold repr_str. destruct (choose_quote_cases s) as [-> | ->].
+  - exists 39, (flat_map (repr_char pr 39) s). split; [reflexivity |]. right. exists 39. split; reflexivity.
+  - exists 34, (flat_map (repr_char pr 34) s). split; [reflexivity |]. right. exists 34. split; reflexivity.
+Qed.
+
+Lemma numch_nospace c : numch c -> is_space c = false.
+Proof. intros [-> | H]; [reflexivity |]. unfold isdigit in H. unfold is_space. lia. Qed.
+
+Lemma tight_numch l : l <> [] -> Forall numch l -> tight l.
+Proof.
+  intros Hne H. destruct l as [| c m]; [contradiction |].
+  assert (Hc : is_space c = false) by (apply numch_nospace; inversion H; assumption).
+  exists c. destruct (rev m) as [| e r] eqn:E.
+  - exists []. split; [assumption |]. left. apply (f_equal (@rev N)) in E. rewrite rev_involutive in E. subst m. reflexivity.
+  - exists (rev r). split; [assumption |]. right. exists e. split.
+    + apply numch_nospace. rewrite Forall_forall in H. apply H. right. apply in_rev. rewrite E. left. reflexivity.
+    + apply (f_equal (@rev N)) in E. rewrite rev_involutive in E. subst m. reflexivity.
+Qed.
+
+Lemma tight_repr_int z : tight (repr_int z).
+Proof.
+  apply tight_numch; [| apply repr_int_numch].
+  unfold repr_int. destruct (dec_ok (Z.abs_N z)) as (_ & _ & C).
+  destruct (Z.ltb z 0); [discriminate | assumption].
+Qed.
